@@ -172,3 +172,13 @@ Definition dbg_c01g (c : c01fb_case) :=
        traverse (pterm d) (cb_terms (fb_case c)))
   | _, _ => (None, None, [], Error EOther)
   end.
+
+(* ---- malformed stream: designs that the bundle passes must REFUSE (an anonymous bundle with a member the port does not have /
+   without a member it has, a no-connect inside an anonymous bundle, a Pair's anonymous bundle with a member other than p, n).
+   0 both refuse; 2 the model refuses, the implementation exports a package; 3 the model does not refuse (harness) ---- *)
+Definition chk_c01g_reject (c : c01fb_case) : Z :=
+  match bundle_passes (cb_design (fb_case c)), cb_pkg (fb_case c) with
+  | Error _, None => 0
+  | Error _, Some _ => 2
+  | Ok _, _ => 3
+  end.
